@@ -395,6 +395,8 @@ structure Cfg where
 inductive Exc
   | valueError
   | overflowError
+  /-- raised by the interpreter before any native call (`len()` of an iterator) -/
+  | typeError
   | osError (e : Errno)
   /-- an OSError carrying a stale errno value -/
   | osRaw (n : Nat)
@@ -632,5 +634,89 @@ def stepX (c : Cfg) (k : Kernel) (pid : Nat) (x : Ctx) : Req → Out × Kernel
     if c.valueWithoutClassRaises then (.exc .valueError, k) else ioniceGetX c k pid x.errnoIn
   | .cpuAffinity cpus => cpuAffinityX c k pid x cpus
   | req => step c k pid req
+
+/-! ### 6. the arguments as Python objects
+
+  The calls above take `Int`s and `List Int`s. The caller writes Python objects: an I/O class is
+  documented as one of the `IOPRIO_CLASS_*` constants (members of the `IntEnum` `IOPriority`), a
+  resource may be wrapped in an enum, `True`/`False` are `int`s, a CPU "list" may be a tuple, a set,
+  a `range` or an iterator, the limits a tuple or a list. What the code does with the object
+  before the value reaches the native layer: `is None` tests (the `Option`s of `Req`), truth tests
+  (`if value and …`, `if not cpus`), `in {…}` (hash/equality of an int subclass are those of the
+  int), `len(limits)`, `list(set(cpus))`, and the `"i"` / `PyLong_AsLong` conversions (which accept
+  every int subclass). -/
+
+/-- an int-like scalar argument as the caller writes it (all three are instances of `int`) -/
+inductive Scalar
+  | int (v : Int)
+  /-- a member of an `IntEnum` (`IOPriority.IOPRIO_CLASS_BE`, a resource wrapped in an enum) -/
+  | enum (v : Int)
+  | bool (b : Bool)
+  deriving DecidableEq, Repr
+
+def Scalar.val : Scalar → Int
+  | .int v => v
+  | .enum v => v
+  | .bool b => if b then 1 else 0
+
+/-- how the CPUs are handed over; `iterator` = a generator / `iter(…)`: always truthy, no `len()` -/
+inductive CpuForm | list | tuple | set | range | iterator
+  deriving DecidableEq, Repr
+
+/-- how the limits are handed over -/
+inductive LimForm | tuple | list | iterator
+  deriving DecidableEq, Repr
+
+inductive PyReq
+  | nice (value : Option Scalar)
+  | ionice (ioclass value : Option Scalar)
+  | cpuAffinity (cpus : Option (CpuForm × List Int))
+  | rlimit (res : Scalar) (limits : Option (LimForm × List Int))
+  deriving DecidableEq, Repr
+
+/-- the same request with every argument replaced by its value -/
+def PyReq.erase : PyReq → Req
+  | .nice v => .nice (v.map Scalar.val)
+  | .ionice a b => .ionice (a.map Scalar.val) (b.map Scalar.val)
+  | .cpuAffinity none => .cpuAffinity none
+  | .cpuAffinity (some (_, l)) => .cpuAffinity (some l)
+  | .rlimit r none => .rlimit r.val none
+  | .rlimit r (some (_, l)) => .rlimit r.val (some l)
+
+/-- no argument is an iterator -/
+def PyReq.Sized : PyReq → Prop
+  | .cpuAffinity (some (f, _)) => f ≠ .iterator
+  | .rlimit _ (some (f, _)) => f ≠ .iterator
+  | _ => True
+
+/-- is this a set form? -/
+def PyReq.isSet : PyReq → Bool
+  | .nice (some _) => true
+  | .ionice (some _) _ => true
+  | .cpuAffinity (some _) => true
+  | .rlimit _ (some _) => true
+  | _ => false
+
+/-- `Process._raise_if_pid_reused()` as far as a process that is simply GONE is concerned (PID reuse
+    itself is property C01's subject and not modelled): every set form calls it first,
+    `is_running()` finds no such process, and NoSuchProcess is raised before any argument is looked
+    at. (`Process(0)` cannot be built on Linux; for the kernel 0 is the caller.) -/
+def goneGuard (k : Kernel) (pid : Nat) (r : PyReq) : Bool :=
+  r.isSet && pid != 0 && (k.procs pid).isNone
+
+/-- the call once the guard has passed -/
+def stepPyCore (c : Cfg) (k : Kernel) (pid : Nat) (x : Ctx) : PyReq → Out × Kernel
+  | .cpuAffinity (some (.iterator, l)) =>
+    -- `not cpus` is False for an iterator, also for an exhausted one: `list(set(cpus))` goes to the
+    -- platform layer as it is
+    cpuAffinitySetWith c.einvalValueError (getEligibleCpusX k pid x.statusMask) k pid (dedup c l)
+  | .rlimit _ (some (.iterator, _)) =>
+    -- `_pslinux.Process.rlimit`: the PID-0 test, then `len(limits)` → TypeError
+    if pid = 0 ∧ c.pid0Refused then (.exc .valueError, k) else (.exc .typeError, k)
+  | r => stepX c k pid x r.erase
+
+/-- one public call with the arguments as Python objects, in the context `x` — what the driver runs -/
+def stepPy (c : Cfg) (k : Kernel) (pid : Nat) (x : Ctx) (r : PyReq) : Out × Kernel :=
+  if goneGuard k pid r then (.exc (.noSuchProcess pid), k) else stepPyCore c k pid x r
 
 end Psutil.C18
